@@ -114,6 +114,25 @@ def observer(got, pred, sp, call, sg, prog, ctx, part):
                 if s.objective_value is None or abs(s.objective_value - ref_obj) > 1e-7 * (1 + abs(ref_obj)):
                     bad('optimal objective value differs from the reference LP', {'method': m, 'sense': sense, 'solve': attempt, 'got': s.objective_value, 'expected': ref_obj})
                     return
+    # the same Problem object re-oriented with the same objective object, after it has been solved (LP data cached)
+    flipped = 'max' if sp['lp']['sense'] == 'min' else 'min'
+    try:
+        ref_status, ref_obj = reference(dict(sp['lp'], sense=flipped), bounds, REF_METHOD['auto'])
+    except Exception:
+        return
+    with warnings.catch_warnings():
+        warnings.simplefilter('ignore')
+        try:
+            (got.minimize if flipped == 'min' else got.maximize)(ctx.cur_objs[call['a']])
+            s = got.solve()
+        except Exception as e:
+            bad('solve raises %s after re-orienting a solved linear problem' % type(e).__name__)
+            return
+    part['evaluations'] += 1
+    if s.status.value != ref_status:
+        bad('status differs from the reference LP after re-orienting the solved problem (%s vs %s)' % (s.status.value, ref_status), {'sense': flipped})
+    elif ref_status == 'optimal' and (s.objective_value is None or abs(s.objective_value - ref_obj) > 1e-7 * (1 + abs(ref_obj))):
+        bad('optimal objective value differs from the reference LP after re-orienting the solved problem', {'sense': flipped, 'got': s.objective_value, 'expected': ref_obj})
 
 
 def magnitude_chunk(idx, items):
